@@ -214,6 +214,7 @@ GROUPS = {
     "silence": ("GenSilence.v", "TieSilence.v", ["tie_make_silence"]),
     "buf": ("GenBuf.v", "TieBuf.v", ["tie_buf_read", "tie_buf_setpos", "tie_buf_getpos", "tie_buf_getpos_ms"]),
     "fmt": ("GenFmt.v", "TieFmt.v", ["tie_fields"]),
+    "load": ("GenLoad.v", "TieLoad.v", ["tie_read_offline"]),
     "reader": ("GenReader.v", "TieReader.v", ["tie_reader_params", "tie_lim_read", "tie_rec_read", "tie_fixed_read", "tie_ov_first", "tie_ov_next"]),
     "loops": ("GenLoops.v", "TieLoops.v", ["tie_run_turn", "tie_stop_requested", "tie_tok_read", "tie_programs"]),
 }
@@ -1320,7 +1321,93 @@ def gen_reader(repo):
     return "\n".join(out)
 
 
-GENERATORS = {"reader": gen_reader, "loops": gen_loops, "savers": gen_savers, "fsrc": gen_fsrc, "algebra": gen_algebra, "split": gen_split, "dur": gen_dur, "region": gen_region, "silence": gen_silence, "buf": gen_buf, "fmt": gen_fmt}
+# ---------------------------------------------------------------- _read_offline (load)
+
+class LoadPure(Pure):
+    """core._read_offline: the source object is the buffer machine of IO/Source.v (state threaded through open / read / close);
+    `audio_source.read(e)` is one Read step, its result None or data; `audio_source.sampling_rate` is the rate of the audio."""
+    def expr(self, e, env, binds):
+        if isinstance(e, ast.Attribute) and isinstance(e.value, ast.Name) and env.get(e.value.id, NONE).ty == "src":
+            if e.attr in ("sampling_rate", "sr"):
+                return V("(arate a)", "Z")
+            if e.attr in ("sample_width", "sw", "channels", "ch"):
+                return V('""', "str")
+        return super().expr(e, env, binds)
+
+    def step(self, env, op):
+        nm = self.new("st")
+        cur = env["#s"].text
+        env2 = dict(env); env2["#s"] = V(nm, "bstate")
+        return env2, nm, "(bstep a %s %s)" % (cur, op)
+
+    def block(self, stmts, env, k):
+        st = stmts[0] if stmts else None
+        if isinstance(st, ast.Assign) and len(st.targets) == 1 and isinstance(st.targets[0], ast.Name) and isinstance(st.value, ast.Call) \
+                and isinstance(st.value.func, ast.Name) and st.value.func.id == "get_audio_source":
+            env = dict(env); env[st.targets[0].id] = V("", "src"); env["#s"] = V("init_b", "bstate")
+            return self.block(stmts[1:], env, k)
+        call = None
+        target = None
+        if isinstance(st, ast.Expr) and isinstance(st.value, ast.Call):
+            call = st.value
+        elif isinstance(st, ast.Assign) and len(st.targets) == 1 and isinstance(st.targets[0], ast.Name) and isinstance(st.value, ast.Call):
+            call, target = st.value, st.targets[0].id
+        if call is not None and isinstance(call.func, ast.Attribute) and isinstance(call.func.value, ast.Name) and env.get(call.func.value.id, NONE).ty == "src" \
+                and not call.keywords:
+            m = call.func.attr
+            if m in ("open", "close") and not call.args and target is None:
+                env2, nm, tx = self.step(env, "Open" if m == "open" else "Close")
+                return "(let %s := fst %s in %s)" % (nm, tx, self.block(stmts[1:], env2, k))
+            if m == "read" and len(call.args) == 1:
+                binds = []
+                n = self.expr(call.args[0], env, binds)
+                if n.ty == "Z":
+                    arg = "(Some %s)" % n.text
+                elif n.ty == "none":
+                    arg = "None"
+                else:
+                    bad(st, "read(%s)" % n.ty)
+                r = self.new("r")
+                env2, nm, tx = self.step(env, "(Read %s)" % arg)
+                if target is None:
+                    return self.wrap(binds, "(let %s := fst %s in %s)" % (nm, tx, self.block(stmts[1:], env2, k)))
+                d = self.new("d")
+                e_some = dict(env2); e_some[target] = V(d, "bytes")
+                e_none = dict(env2); e_none[target] = NONE
+                return self.wrap(binds, "(let %s := %s in (let %s := fst %s in (match snd %s with OData %s => %s | _ => %s end)))" % (
+                    r, tx, nm, r, r, d, self.block(stmts[1:], e_some, k), self.block(stmts[1:], e_none, k)))
+            bad(st, "call of audio_source.%s" % m)
+        return super().block(stmts, env, k)
+
+
+def ret_load(tr, v, env, node):
+    if v.ty == "error":
+        return v.text
+    if v.ty != "tuple" or len(v.const) != 4 or v.const[0].ty != "bytes":
+        bad(node, "_read_offline must return (data, sampling_rate, sample_width, channels)")
+    return "Ok %s" % v.const[0].text
+
+
+def gen_load(repo):
+    core = ast.parse(open(os.path.join(repo, "auditok", "core.py")).read())
+    fn = find_function(core, "_read_offline")
+    if fn.args.kwarg is None or [a.arg for a in fn.args.args] != ["input", "skip", "max_read"]:
+        raise TranslationError("_read_offline signature changed")
+    f = ast.parse(ast.unparse(fn)).body[0]
+    f.args.args = f.args.args[1:]; f.args.defaults = []; f.args.kwarg = None
+    out = list(HEADER)
+    out[3] = "From AV Require Import Base.PyList Base.PyFloat Tok.Model IO.Source IO.Load."
+    out.append("Section LoadGen.\nContext {B : Type}.\n")
+    sp = Spec("read_offline_gen", [("skip", "optF"), ("max_read", "optF")], ret_load)
+    sp.extra_params = ["(a : audio B)"]
+    sp.ret_type = "result (list B)"
+    tr = LoadPure(f, sp, module=None)
+    out.append(tr.translate())
+    out.append("End LoadGen.\n")
+    return "\n".join(out)
+
+
+GENERATORS = {"load": gen_load, "reader": gen_reader, "loops": gen_loops, "savers": gen_savers, "fsrc": gen_fsrc, "algebra": gen_algebra, "split": gen_split, "dur": gen_dur, "region": gen_region, "silence": gen_silence, "buf": gen_buf, "fmt": gen_fmt}
 
 
 def emit_group(repo, group):
